@@ -142,6 +142,50 @@ def run_v(o: Outcome, n, thorough):
         o.sample({"random_case": {"lib": {k: tr.render_body(s) for k, s in cases[0]["lib"].items()}, "page": by_idx[0][0], "out": by_idx[0][1]}})
 
 
+INC_TOK = {"NO": "<noinclude>", "NC": "</noinclude>", "IO": "<includeonly>", "IC": "</includeonly>", "OO": "<onlyinclude>",
+           "OC": "</onlyinclude>", "OS": "<onlyinclude/>", "CO": "<!--", "CC": "-->"}
+
+
+def inc_chunk(chunk):
+    common.use_repo()
+    res = []
+    with Scratch("c04i-") as d:
+        ctx = new_ctx(d)
+        try:
+            for idx, toks in chunk:
+                body = "".join(INC_TOK.get(t, t) for t in toks)
+                ctx.add_page("Template:X", 10, body=body)
+                p = ctx.get_page("X", 10)
+                res.append((idx, body, p.body if p else None))
+        finally:
+            ctx.db_conn.close()
+    return res
+
+
+def run_includable(o: Outcome, thorough: bool):
+    """Includable part (last sentence of the property): spec/Includable.tla transcribes _template_to_body on
+    token sequences; TLC checks it against the segment-level reference on every well-formed body (Law) and
+    enumerates token soups; the real add_page/get_page must store exactly the predicted text."""
+    for mode in ("segs", "soup"):
+        r = tlc("Gen_Includable", f"Gen_Includable_{mode}_{'T' if thorough else 'Q'}.cfg", workers=1, timeout=3000)
+        o.add_tlc(f"Gen_Includable[{mode}] law+cases", r)
+        cases = r.cases
+        for idx, body, got in pmap(inc_chunk, [(i, c["toks"]) for i, c in enumerate(cases)]):
+            c = cases[idx]
+            o.evaluations += 1
+            exp = "".join(INC_TOK.get(t, t) for t in c["out"])
+            if got == exp:
+                if c["wf"]:
+                    o.shape(("inc", body))
+                continue
+            if c["wf"]:
+                o.violation({"origin": "G-includable", "template_body": body, "expected": exp, "got": got},
+                            f"the includable part of the template body {body!r} is stored as {got!r}; the rules give {exp!r}", cls="includable")
+            else:
+                o.note_drift({"template_body": body, "model": exp, "real": got, "note": "unbalanced/nested wrapper tags: transcription of _template_to_body differs"})
+        o.traces += len(cases)
+
+
 def run(tier: str) -> int:
     o = Outcome(PID, tier)
     o.rule = ("G: every (library, page) pair of the bounded universe of Gen_Transclusion is one case; V: seeded random "
@@ -162,6 +206,7 @@ def run(tier: str) -> int:
     mid = cases[len(cases) // 3]
     o.sample({"lib": {k: tr.render_body(v) for k, v in mid["lib"].items()}, "page": tr.render(mid["page"]), "expected": tr.text(mid["ideal"])})
     run_v(o, 1500 if thorough else 250, thorough)
+    run_includable(o, thorough)
     return o.finish()
 
 
